@@ -29,6 +29,9 @@ pub struct Profile {
     /// Probability of the "sub-query used twice" shape: a CTE aggregation released once as is and
     /// re-aggregated once, combined by UNION ALL.
     pub p_shared_cte: f64,
+    /// Probability of an aggregation over an aggregation grouped by the inner aggregate
+    /// (`SELECT t.c, count(*) FROM (SELECT count(*) AS c FROM base GROUP BY key) AS t GROUP BY t.c`).
+    pub p_nested_group: f64,
 }
 
 impl Profile {
@@ -47,14 +50,15 @@ impl Profile {
             full_catalogue: false,
             p_nested: 0.08,
             p_shared_cte: 0.0,
+            p_nested_group: 0.0,
         };
         match prop {
-            "C03" => Profile { p_shared_cte: 0.05, ..base },
-            "C01" => Profile { p_shared_cte: 0.03, ..base },
+            "C03" => Profile { p_shared_cte: 0.05, p_nested_group: 0.03, ..base },
+            "C01" => Profile { p_shared_cte: 0.03, p_nested_group: 0.05, ..base },
             "C09" => Profile { public_keys_only: true, benign_data: true, p_distinct: 0.12, p_row_privacy: 0.15, p_grouped: 0.65, ..base },
-            "C04" => Profile { p_nested: 0.0, need_private_key: true, p_grouped: 1.0, p_outer: 0.0, p_distinct: 0.05, ..base },
+            "C04" => Profile { p_nested_group: 0.08, p_nested: 0.0, need_private_key: true, p_grouped: 1.0, p_outer: 0.0, p_distinct: 0.05, ..base },
             "C16" => Profile { full_catalogue: true, p_public_table: 1.0, p_synthetic: 0.3, ..base },
-            "C02" => Profile { p_shared_cte: 0.08, p_plain: 0.25, p_synthetic: 0.4, p_public_table: 0.5, p_outer: 0.2, ..base },
+            "C02" => Profile { p_nested_group: 0.03, p_shared_cte: 0.08, p_plain: 0.25, p_synthetic: 0.4, p_public_table: 0.5, p_outer: 0.2, ..base },
             _ => base,
         }
     }
@@ -576,6 +580,67 @@ pub fn generate(seed: u64, run: u64, prop: &str) -> Generated {
         }
     }
 
+    // aggregation over an aggregation, grouped by the inner aggregate (a private-valued key)
+    if rg.chance(profile.p_nested_group) && base_t.name == "orders" {
+        let a = alias_of(&base_t.name);
+        let inner_key = ["note", "qty", "status"].iter().find(|k| base_t.col_index(k).is_some()).map(|k| k.to_string());
+        if let Some(ik) = inner_key {
+            // give one unit inner groups of sizes 1, 2, 3, ... so that it holds many outer keys
+            let mut tables2 = tables.clone();
+            let base_name = base_t.name.clone();
+            let ti = tables2.iter().position(|t| t.name == "orders").unwrap();
+            let (uc, kc) = (tables2[ti].col_index("user_id").unwrap(), tables2[ti].col_index(&ik).unwrap());
+            let mut count: std::collections::BTreeMap<String, usize> = Default::default();
+            for r in &tables2[ti].rows {
+                *count.entry(r[uc].key()).or_default() += 1;
+            }
+            if let Some((heavy, n)) = count.iter().max_by_key(|(k, n)| (**n, k.to_string())).map(|(k, n)| (k.clone(), *n)) {
+                if n >= 3 {
+                    let is_text = matches!(tables2[ti].cols[kc].ty, ColType::Text | ColType::TextValues(_));
+                    let (mut g, mut left, mut size) = (0usize, 1usize, 1usize);
+                    for r in tables2[ti].rows.iter_mut().filter(|r| r[uc].key() == heavy) {
+                        r[kc] = if is_text { Cell::Text(format!("g{}", g)) } else { Cell::Int(g as i64 % 30) };
+                        left -= 1;
+                        if left == 0 {
+                            g += 1;
+                            size += 1;
+                            left = size;
+                        }
+                    }
+                    faults.push("unit_with_inner_groups_of_many_sizes".into());
+                }
+            }
+            let own_where: Vec<String> = where_.iter().filter(|w| w.contains(&format!("{}.", a)) && !from.iter().skip(1).any(|f| w.contains(&format!("{}.", f.alias)))).cloned().collect();
+            let wsql = if own_where.is_empty() { String::new() } else { format!(" WHERE {}", own_where.join(" AND ")) };
+            let outer_agg = *rg.pick(&["count(*)", "sum(t.c)"]);
+            let sql = format!(
+                "SELECT t.c AS k0, {} AS a0 FROM (SELECT count(*) AS c FROM {} AS {}{} GROUP BY {}.{}) AS t GROUP BY t.c",
+                outer_agg, base_name, a, wsql, a, ik
+            );
+            let holders = format!(
+                "SELECT DISTINCT x.c AS k0, x.unit AS __unit FROM (SELECT __w.unit AS unit, count(*) AS c FROM {} AS {} JOIN \"__own_{}\" AS __w ON __w.rid = {}.rowid{} GROUP BY __w.unit, {}.{}) AS x",
+                base_t.name, a, base_name, a, wsql, a, ik
+            );
+            tags.push("keys:priv".into());
+            tags.push("aggs:nested_group".into());
+            tags.push("nested_group".into());
+            let query = QuerySpec {
+                from: vec![FromItem { table: base_name.clone(), alias: a.clone(), on: None, kind: String::new() }],
+                where_: vec![],
+                keys: vec![KeySpec { expr: "t.c".into(), alias: "k0".into(), public_set: None, nullable: false, ambiguous: false }],
+                aggs: vec![AggSpec { f: AggFn::CountStar, distinct: false, arg: String::new(), alias: "a0".into(), scale: 1.0 }],
+                having: None,
+                outer: None,
+                plain: None,
+                cte: None,
+                raw_sql: Some(sql),
+                holders_override: Some(holders),
+            };
+            let base = Some((a, base_name.clone()));
+            return finish(seed, run, tables2, synthetic, pu, params, query, base, tags, faults, &protected);
+        }
+    }
+
     // sub-query used twice: released once, re-aggregated once (CTE + UNION ALL)
     if rg.chance(profile.p_shared_cte) && !numeric.is_empty() && !keyable.is_empty() {
         let own: Vec<&(String, ColSpec)> = numeric.iter().cloned().filter(|(q, _)| q.starts_with(&format!("{}.", alias_of(&base_t.name)))).collect();
@@ -602,7 +667,7 @@ pub fn generate(seed: u64, run: u64, prop: &str) -> Generated {
             let sql = if order { format!("WITH t AS ({}) {} UNION ALL {}", inner, first, second) } else { format!("WITH t AS ({}) {} UNION ALL {}", inner, second, first) };
             tags.push(format!("keys:{}", if public_set_of(&kc.ty).is_some() { "pub" } else { "priv" }));
             tags.push("shared_cte".into());
-            let query = QuerySpec { from: vec![], where_: vec![], keys: vec![], aggs: vec![], having: None, outer: None, plain: None, cte: None };
+            let query = QuerySpec { from: vec![], where_: vec![], keys: vec![], aggs: vec![], having: None, outer: None, plain: None, cte: None, raw_sql: None, holders_override: None };
             let base = Some((a, base_t.name.clone()));
             let mut g = finish(seed, run, tables, synthetic, pu, params, query, base, tags, faults, &protected);
             g.scenario.sql = sql;
@@ -620,7 +685,7 @@ pub fn generate(seed: u64, run: u64, prop: &str) -> Generated {
             plain.push((q.clone(), format!("p{}", j)));
         }
         tags.push("plain".into());
-        let query = QuerySpec { from, where_, keys: vec![], aggs: vec![], having: None, outer: None, plain: Some(plain), cte: None };
+        let query = QuerySpec { from, where_, keys: vec![], aggs: vec![], having: None, outer: None, plain: Some(plain), cte: None, raw_sql: None, holders_override: None };
         return finish(seed, run, tables, synthetic, pu, params, query, None, tags, faults, &protected);
     }
 
@@ -758,7 +823,7 @@ pub fn generate(seed: u64, run: u64, prop: &str) -> Generated {
             tags.push("nested".into());
         }
     }
-    let query = QuerySpec { from, where_, keys, aggs, having, outer: if cte.is_some() { None } else { outer }, plain: None, cte };
+    let query = QuerySpec { from, where_, keys, aggs, having, outer: if cte.is_some() { None } else { outer }, plain: None, cte, raw_sql: None, holders_override: None };
     finish(seed, run, tables, synthetic, pu, params, query, base, tags, faults, &protected)
 }
 
